@@ -20,7 +20,7 @@ ASSUMPTIONS = ['an exception raised from the line tracer at line L is equivalent
                'for BaseException endings of process/remote kinds both the exception and None are accepted as error']
 SHRINK = 'none'
 TIME_BUDGET = {'quick': 170, 'thorough': 1700}
-REQUIRED = {'quick': {'landed': 150, 'land:except_handler': 3, 'land:finally': 5, 'land:result_send': 5, 'mode:kill': 30, 'mode:terminate': 100, 'remote_big_result_polled': 10},
+REQUIRED = {'quick': {'landed': 150, 'land:except_handler': 3, 'land:finally': 5, 'land:result_send': 5, 'mode:kill': 30, 'mode:terminate': 100, 'remote_big_result_polled': 10, 'scenario:state_unrebuildable': 20},
             'thorough': {'landed': 1500, 'land:except_handler': 30, 'land:finally': 50, 'land:result_send': 50}}
 
 _ACC = ['is_alive', 'has_error', 'result', 'error', 'wait0', 'terminate0']
@@ -65,7 +65,10 @@ def strategy(tier):
         'kind': st.sampled_from(['remote', 'remote', 'process', 'thread']), 'scenario': st.sampled_from(['big:4000000', 'slowload:300', 'slowload:300', 'slowload:100', 'quick_return']),
         'inject': st.just({'mode': 'none'}), 'poll': st.sampled_from([0, 0.001, 0.01]),
         'observe': st.lists(st.sampled_from(['has_error', 'result', 'error', 'has_error', 'is_alive', 'wait0']), min_size=4, max_size=8)})
-    return st.one_of(one, one, one, pers, pers, own, big, bigpoll)
+    stu = st.fixed_dictionaries({
+        'kind': st.sampled_from(['remote', 'process', 'p_remote', 'p_process', 'thread']), 'scenario': st.just('state_unrebuildable'),
+        'inject': st.just({'mode': 'none'}), 'observe': st.lists(st.sampled_from(['has_error', 'result', 'error', 'is_alive', 'user_state', 'has_error']), min_size=4, max_size=8)})
+    return st.one_of(one, one, one, pers, pers, own, big, bigpoll, stu)
 
 
 def exhaustive(tier, shard, nshards):
@@ -106,6 +109,10 @@ def expected(case):
         errs.append({'exc': 'ValueError', 'args': repr(('own', 'x', 2))})
     elif sc.startswith('big:'):
         a_results = ['BIG']
+    elif sc == 'state_unrebuildable':
+        # the work itself ends normally; only the child's final user_state cannot be rebuilt by the parent
+        a_results = [1] if kind.startswith('p_') else [IC.enc(('seen', '0'))]
+        errs.append(None)
     elif sc.startswith('slowload:'):
         a_results = [{'repr': 'SlowLoad(%s)' % (int(sc.split(':')[1]) / 1000.0)}]
     elif sc.startswith('raise:'):
